@@ -383,7 +383,7 @@ def main():
     except ValueError:
         seed = 1
     t_start = time.time()
-    workdir = os.path.join(ROOT, 'work', pid + BIN_SUFFIX + ('-replay' if a.replay else ''))
+    workdir = os.path.join(ROOT, 'work', pid + BIN_SUFFIX + ('-thorough' if tier == 'thorough' else '') + ('-replay' if a.replay else ''))
     os.makedirs(workdir, exist_ok=True)
     os.makedirs(os.path.join(ROOT, 'replays'), exist_ok=True)
     os.makedirs(os.path.join(ROOT, 'evidence'), exist_ok=True)
